@@ -501,4 +501,15 @@ func factsLocks() {
 	}
 	sort.Strings(secs)
 	defStrList("lockSections", secs)
+	// re-entrant acquisitions: a method called on the SAME object while its mutex is held (read or write) that takes
+	// that mutex itself.  sync.Mutex and sync.RWMutex are not re-entrant: a write lock deadlocks at once, a nested
+	// read lock deadlocks as soon as a writer queues up between the two acquisitions.
+	var re []string
+	for _, c := range la.calls {
+		if c.sameObject && (c.lockW || c.lockR) && !c.fresh && la.selfLocks[c.callee] {
+			re = append(re, fmt.Sprintf("%s -> %s", c.caller, c.callee))
+		}
+	}
+	sort.Strings(re)
+	defStrList("reentrantLocking", re)
 }
